@@ -325,6 +325,23 @@ func runC06(c *core.Ctx) {
 		}
 	}
 	c.Count("role_matrix_documents", int64(len(c06Payloads)*len(c06Roles)))
+	// the table of named character references is process-wide state: one document that uses every name (in text and in a
+	// destination) is converted when an instance is new (phase i) and again at the end (phase iii); in between, documents put
+	// a reference at the very start, in the middle and at the end of destinations, titles and text, followed by more bytes -
+	// whatever they do to the table shows when the sweep document is converted again
+	var sweep strings.Builder
+	for i, n := range wl.EntityNames {
+		sweep.WriteString("&" + n + " ")
+		if i%12 == 11 {
+			sweep.WriteString("\n")
+		}
+	}
+	s.docs = append(s.docs, []byte(sweep.String()))
+	for i := 0; i < len(wl.EntityNames); i += 7 {
+		e := "&" + wl.EntityNames[i]
+		s.docs = append(s.docs, []byte("[q]("+e+"b=1) [r](/p"+e+") ![s]("+e+") [t](/u \""+e+"tail\")\n\n"+e+"xyz `"+e+"` <http://a.b/"+e+"c>\n\n[u]: "+e+"rest '"+e+"'\n\n[u]\n"))
+	}
+	c.Count("entity_table_documents", int64(1+(len(wl.EntityNames)+6)/7))
 	// twins of every length: for each length L (1..70 and the boundary sizes beyond) two payloads that agree in all but their
 	// last byte, in the roles whose value an instance might remember (destination, title, reference, heading, info string).
 	// The phases below convert them one after the other on the same long-lived instance; anything remembered under a key
